@@ -51,6 +51,12 @@ type contender struct {
 	Kind     acquireKind
 	Override bool
 	Cycles   int
+	// StartAfter delays the contender's first acquire (so that it meets a lock that has been held for a while, at an
+	// instant of its own: 147 ms is when the holder's fourth heart beat is due)
+	StartAfter time.Duration
+	// IDSuffix is appended to the lock id this contender uses (the lock directory is named after the TRIMMED id: "L" and
+	// "L " are the same lock)
+	IDSuffix string
 }
 
 type scenario struct {
@@ -89,6 +95,7 @@ type world struct {
 	lost      []bool          // the contender's own incarnation was removed by somebody else
 	beat      time.Time       // newest sign of life of the present incarnation: its creation or its owner's latest heart-beat write
 	forfeited []bool          // the contender's lock was legitimately judged stale and removed in its present cycle (see afterOp)
+	startAge  []time.Duration // age of that sign of life when the contender's first staleness evaluation of its present attempt began
 	lookAge   []time.Duration // age of that sign of life at the latest operation of the contender's staleness evaluations
 	relStart  []time.Time     // when each contender's current Unlock call began
 	judging   []bool          // the contender is inside a staleness evaluation (IsStale entered; no Unlock / Mkdir / removal since)
@@ -179,12 +186,13 @@ func (w *world) afterOp(op *vfsx.Op) {
 				// fresh directory) is not evidence that this incarnation is stale
 				sig += ":last-look=this-incarnation"
 			}
-			if judgedSame && w.lastLook[x] == w.inc && w.lookAge[x] > 100*time.Millisecond {
+			if judgedSame && w.lastLook[x] == w.inc && (w.lookAge[x] > 100*time.Millisecond || w.startAge[x] > 100*time.Millisecond) {
 				// outside the premise ("as long as the holder's heartbeat keeps running"): the remover judged this very
 				// incarnation, and at the last operation of its staleness evaluation the incarnation's newest sign of life
 				// (its creation, or its owner's latest heart-beat write) was more than two periods old — the victim was
-				// stalled for that long before its first heart beat. The victim has forfeited the lock: what happens to
-				// it from here on is not held against anybody.
+				// stalled for that long before its first heart beat (or it was that old when the remover's evaluation of this
+				// attempt BEGAN, and the victim's first beat raced with the evaluation). The victim has forfeited the lock:
+				// what happens to it from here on is not held against anybody.
 				w.forfeited[y] = true
 				w.outside++
 			} else {
@@ -236,7 +244,7 @@ func newBackend(x *gosim.Exec, kind string) afero.Fs {
 func body(sc scenario) func(x *gosim.Exec) {
 	return func(x *gosim.Exec) {
 		n := len(sc.Contenders)
-		w := &world{x: x, owner: -1, phase: make([]phase, n), api: make([]string, n), ownGone: make([]bool, n), acquired: make([]int, n), outcome: make([]string, n), sawInc: make([]int, n), lost: make([]bool, n), stale: make([]int, n), judging: make([]bool, n), lastLook: make([]int, n), forfeited: make([]bool, n), relStart: make([]time.Time, n), lookAge: make([]time.Duration, n)}
+		w := &world{x: x, owner: -1, phase: make([]phase, n), api: make([]string, n), ownGone: make([]bool, n), acquired: make([]int, n), outcome: make([]string, n), sawInc: make([]int, n), lost: make([]bool, n), stale: make([]int, n), judging: make([]bool, n), lastLook: make([]int, n), forfeited: make([]bool, n), relStart: make([]time.Time, n), lookAge: make([]time.Duration, n), startAge: make([]time.Duration, n)}
 		verifrt.EventHook = func(name string) {
 			th := x.Current()
 			if th == nil || th.Client < 0 || th.Client >= n {
@@ -244,6 +252,10 @@ func body(sc scenario) func(x *gosim.Exec) {
 			}
 			switch name {
 			case "IsStale":
+				if w.stale[th.Client] == 0 {
+					// the first staleness evaluation of this acquire attempt begins: how long the lock has been silent by now
+					w.startAge[th.Client] = time.Since(w.beat)
+				}
 				w.stale[th.Client]++
 				w.judging[th.Client] = true
 			case "Unlock":
@@ -292,8 +304,11 @@ func body(sc scenario) func(x *gosim.Exec) {
 			i, c := i, c
 			wrapper := vfsx.NewMem(backend, shared, i)
 			vfs := filesystem.NewVirtualFileSystem(wrapper, filesystem.InMemoryFS, filesystem.IdentityPathConverterFunc).(*filesystem.VFS)
-			lock := filesystem.NewGenericRemoteLockFile(vfs, lockID, lockRoot, c.Override)
+			lock := filesystem.NewGenericRemoteLockFile(vfs, lockID+c.IDSuffix, lockRoot, c.Override)
 			x.Go(fmt.Sprintf("c%d", i), i, func() {
+				if c.StartAfter > 0 {
+					time.Sleep(c.StartAfter)
+				}
 				for cycle := 0; cycle < c.Cycles; cycle++ {
 					w.phase[i] = pAcquiring
 					w.lost[i] = false
@@ -367,6 +382,9 @@ func scenarios() []scenario {
 		if strings.Contains(name, "hold40") {
 			hold = 40 * time.Millisecond // longer than Unlock's maximal retry jitter (25 ms)
 		}
+		if strings.Contains(name, "hold200") {
+			hold = 200 * time.Millisecond
+		}
 		if strings.Contains(name, "hold147") {
 			// longer than two heart-beat periods plus a lock try, and ending at the very instant the holder's fourth heart
 			// beat is due: the beat is "in flight" when the release begins
@@ -381,9 +399,9 @@ func scenarios() []scenario {
 		}
 		out = append(out, scenario{Name: name, Backend: backend, Init: init, Contenders: cs, Bound: bound, Hold: hold, Stall: stall})
 	}
-	T := func(o bool) contender { return contender{aTry, o, 1} }
-	L := func(o bool) contender { return contender{aLock, o, 1} }
-	W := func(o bool) contender { return contender{aLockTimeout, o, 1} }
+	T := func(o bool) contender { return contender{Kind: aTry, Override: o, Cycles: 1} }
+	L := func(o bool) contender { return contender{Kind: aLock, Override: o, Cycles: 1} }
+	W := func(o bool) contender { return contender{Kind: aLockTimeout, Override: o, Cycles: 1} }
 	// quick
 	add("free/2xTry", "posixmem", "free", 2, T(false), T(false))
 	add("free/Try+Lock", "posixmem", "free", 2, T(false), L(false))
@@ -398,6 +416,13 @@ func scenarios() []scenario {
 	add("free/Try+Try-override stall110", "posixmem", "free", 2, T(false), T(true))
 	add("free/Try+Try-override stall60", "posixmem", "free", 2, T(false), T(true))
 	add("free/Try+Lock-override hold147 P1", "posixmem", "free", 1, T(false), L(true))
+	// a contender that arrives while the lock has been held for a while, at the instant a heart beat is due (hold 200 ms)
+	late := func(o bool, suffix string) contender {
+		return contender{Kind: aTry, Override: o, Cycles: 1, StartAfter: 147 * time.Millisecond, IDSuffix: suffix}
+	}
+	add("free/Try + late Try-override hold200", "posixmem", "free", 2, T(false), late(true, ""))
+	add("free/Try + late Try-override hold200(mem)", "mem", "free", 2, T(false), late(true, ""))
+	add("free/Try + late Try-override, id with a trailing blank, hold200", "posixmem", "free", 1, T(false), late(true, " "))
 	add("noroot/2xTry", "posixmem", "noroot", 2, T(false), T(false))
 	add("noroot/Try+Lock-override(os)", "os", "noroot", 2, T(false), L(true))
 	add("free/2xTry(mem)", "mem", "free", 2, T(false), T(false))
@@ -411,7 +436,7 @@ func scenarios() []scenario {
 		add("free/3:Try+Lock+Lock", "posixmem", "free", 2, T(false), L(false), L(false))
 		add("free/Lock+Lock hold40", "posixmem", "free", 2, L(false), L(false))
 		add("dead/2xTry-override hold40", "posixmem", "dead", 2, T(true), T(true))
-		add("free/2 cycles:Try+Lock", "posixmem", "free", 2, contender{aTry, false, 2}, contender{aLock, false, 2})
+		add("free/2 cycles:Try+Lock", "posixmem", "free", 2, contender{Kind: aTry, Cycles: 2}, contender{Kind: aLock, Cycles: 2})
 		add("free/3:Lock+Lock+LockTimeout", "posixmem", "free", 2, L(false), L(false), W(false))
 		add("free/4:Try+Try+Lock+Lock", "posixmem", "free", 2, T(false), T(false), L(false), L(false))
 		add("dead/3:Try-override x2 + Lock", "posixmem", "dead", 2, T(true), T(true), L(false))
